@@ -1,5 +1,7 @@
 package props
 
+import "gvc/internal/driver"
+
 // Table lists the claimed properties and the obligations that decide them.
 func Table() map[string]*Property {
 	t := map[string]*Property{}
@@ -21,6 +23,24 @@ func Table() map[string]*Property {
 			"strconv.Itoa, fmt.Errorf (returns non-nil)", "string lemmas: hasPrefix(p,p); hasPrefix(a,p) ==> hasPrefix(a+b,p)",
 			"gvc VC generator; z3 4.8.12, z3 5.1.0, cvc5 1.0"},
 		Note: "SetFuncName's four-case contract (same / duplicate / conflict / fresh) with flag-controlled resolution, injectivity of the name table, freshness of minted names w.r.t. the table and the reserved names",
+	})
+	semantic := func(r driver.ObResult) bool {
+		// obligations about what the emitted text means (and that it can be given a meaning at all)
+		return r.Layer == "O"
+	}
+	add(&Property{
+		ID: "C02",
+		Groups: []Group{{Layer: "O", Funcs: []string{"equal.gen.field", "equal.gen.genStatement", "equal.gen.genFunc", "equal.gen.genCurriedFunc"}, Only: semantic}},
+		Assumptions: []string{
+			"A-int; A-cfg (a hole replaced by a representative of its grammar class parses the same way); A-param (go/types is parametric in opaque named types)",
+			"Go == on comparable, reference-free types is structural equality (Go spec); a flat struct containing a named component with its own Equal method is compared with == (accepted reading, DESIGN.md)",
+			"struct field counts, and the number of unexported/imported fields, are enumerated up to 3 (bounded in arity; unbounded in values, nesting depth and component types)",
+			"user Equal methods are total, pure, deterministic, take the type / a pointer to it / an interface, and treat nil receivers structurally",
+			"reflect.Indirect(reflect.ValueOf(p)).FieldByName(n).UnsafeAddr() cast and dereferenced denotes p.n for non-nil p",
+			"termination of the emitted recursion follows from the property's acyclic-values hypothesis (not mechanised)",
+		},
+		Trusted: []string{"bytes.Equal contract (length and bytes, not nil-ness)", "go/parser, go/types on the schematic programs", "gvc Layer G symbolic evaluator and VC generator; z3, z3 5.1.0, cvc5"},
+		Note:    "every path of equal.field / genStatement / genFunc / genCurriedFunc: emitted text parses, holes intact, type-checks under the path's prelude, and returns exactly the structural-equality specification EqTop/EqC (one level unfolded, components by contract); curried form agrees with the binary form",
 	})
 	return t
 }
